@@ -197,7 +197,7 @@ func (h *harness) evaluate(c *Case) *Eval {
 			ev.Model = mr
 			if mr.HypKnown && !mr.HypHold && !ev.Ref.Undef {
 				// a validated document over an accepted schema must satisfy the theorem's decidable hypotheses
-				h.corr(ev, "theorem-hypotheses", "the hypotheses of exec_correct_total (distinct positions, non-empty keys, closed schema, composite type conditions, descent certificate) do not hold for this validated document")
+				h.corr(ev, "theorem-hypotheses", "the hypotheses of exec_correct_total_driver (distinct positions, non-empty keys, closed and well-formed schema, composite type conditions, no spread cycle, type check, typed, fields can merge) do not hold for this validated document")
 			}
 			if !mr.Model.Equal(ev.Real) {
 				h.corr(ev, "model-vs-real", fmt.Sprintf("implementation: %s\nmodel:          %s", ev.Real, mr.Model))
@@ -395,7 +395,7 @@ func (h *harness) record(c *Case, ev *Eval, family string) {
 		run.Oblige("correspondence: Lean Spec (data, all, required) = Go Ref", "correspondence", 1, !(ev.Kind == "correspondence" && ev.Oracle == "leanspec-vs-goref"), ev.What)
 	}
 	if h.model != nil {
-		run.Oblige("hypothesis: the decidable hypotheses of exec_correct_total hold for every validated (schema, document)", "srcfact", 1, ev.Oracle != "theorem-hypotheses", ev.What)
+		run.Oblige("hypothesis: the decidable hypotheses of exec_correct_total_driver / exec_correct_total_validated (closedCheck, wfCheck, condsCheck, noSpreadCycle, typeCheck, typed, mergeOK, positions, keys) hold for every validated (schema, document)", "srcfact", 1, ev.Oracle != "theorem-hypotheses", ev.What)
 	}
 	run.Oblige("hypothesis: selection nodes of the parsed document have pairwise distinct (line, column) and non-empty response keys", "srcfact", 1, ev.Oracle != "positions-not-distinct", ev.What)
 }
@@ -476,13 +476,23 @@ func main() {
 	}
 
 	h.selfTest()
-	h.leafSweep()
-	h.exhaustive()
+	// development knob (not used by ./check): C01_DEV_RANDOM=n runs only n random cases
+	devN := 0
+	if v := os.Getenv("C01_DEV_RANDOM"); v != "" {
+		fmt.Sscanf(v, "%d", &devN)
+	}
+	if devN == 0 {
+		h.leafSweep()
+		h.exhaustive()
+	}
 
 	// hx.NewRand(k+1) is hx.NewRand(k) advanced by one draw; fork once so that different seeds give
 	// unrelated case streams
 	root := run.Rand.Fork()
 	n := run.Scale(30000, 600000)
+	if devN > 0 {
+		n = devN
+	}
 	for i := 0; i < n; i++ {
 		r := root.Fork()
 		c := randomCase(r)
